@@ -168,8 +168,56 @@ def run_skip(rep, thorough):
                     w = small(pc, claim, rc, row, cnt) or wit(mdl, rc, row, cnt)
                     ev = lambda e: mdl.eval(e, model_completion=True)
                     report(rep, desc, 'wrong-block', w, b, fake, cb)
+    # fetch_hint_inner: the size of the next batch is what is left of the current block, or the next block's row count
+    try:
+        f_hint = find_fn(vm.prog, FN % 'fetch_hint_inner')
+    except Inconclusive as ex:
+        rep.fail_inconclusive('column fetch_hint: %s' % ex)
+        f_hint = None
+    for K in ((2, 3) if f_hint else ()):
+        rc = [BitVec('rc%d' % i, 32) for i in range(K)]
+        first = [BitVecVal(0, 32)]
+        for i in range(K - 1):
+            first.append(first[i] + rc[i])
+        base = [And(UGE(x, 1), ULE(x, RC_MAX)) for x in rc]
+        c13m._INDEX['seq'] = Seq([Struct('BlockIndex', [{'first_rowid': BV(first[i], False), 'row_count': BV(rc[i], False)}.get(f, Opaque(f)) for f in bfields]) for i in range(K)], 'slice')
+        for b in range(K):
+            desc = 'fetch_hint_inner on block %d of %d' % (b, K)
+            row = BitVec('row', 32)
+            end_b = first[b] + rc[b]
+            vals = {'column': Opaque('Column'), 'current_block_id': mk_int(b, 'u32'), 'block_iterator': Opaque('BlockIter', {}), 'current_row_id': BV(row, False),
+                    'finished': BoolVal(False), 'factory': Opaque('factory'), 'is_fake_iter': Bool('fake'), 'statistics': Opaque('statistics')}
+            state = Struct('ConcreteColumnIterator', [vals.get(f, Opaque(f)) for f in fields])
+            try:
+                outs = vm.run(f_hint, [Ref(Cell(state))], pc=tuple(base + [UGE(row, first[b]), ULE(row, end_b)]))
+            except (Unsupported, MirSyntax, KeyError, AttributeError, Inconclusive) as ex:
+                rep.fail_inconclusive('%s: %s: %s' % (desc, type(ex).__name__, str(ex)[:300]))
+                continue
+            rep.cov['programs'] += 1
+            for o in outs:
+                nq += 1
+                pc = list(o.pc)
+                if o.kind != 'ret':
+                    stv, mdl = engine.satisfiable(pc)
+                    claim = BoolVal(False)
+                else:
+                    hint = vm.deref_value(o.value.items[0]).v
+                    left = ZeroExt(32, end_b - row)
+                    nxt = ZeroExt(32, rc[b + 1]) if b + 1 < K else BitVecVal(0, 64)
+                    fin = o.value.items[1]
+                    claim = And(hint == If(left == 0, nxt, left), Not(fin if not isinstance(fin, bool) else BoolVal(fin)))
+                    stv, mdl = check(pc, claim)
+                if stv == 'unsat':
+                    rep.obligation(True)
+                    continue
+                if stv != 'sat':
+                    rep.obligation(False)
+                    rep.fail_inconclusive('solver unknown: %s' % desc)
+                    continue
+                w = wit(mdl, rc, row, BitVecVal(0, 64))
+                report(rep, desc, 'wrong-batch-size' if o.kind == 'ret' else 'panics', w, b, False, None)
     rep.solver(time.time() - t0, nq)
-    rep.cov['functions_encoded'] = list(rep.cov.get('functions_encoded', [])) + ['ConcreteColumnIterator::{skip_inner, incre_block_id} (from MIR)']
+    rep.cov['functions_encoded'] = list(rep.cov.get('functions_encoded', [])) + ['ConcreteColumnIterator::{skip_inner, incre_block_id, fetch_hint_inner} (from MIR)']
     rep.cov.setdefault('bounds', {})
     rep.cov['bounds']['column skip'] = 'K <= %d blocks, rows per block <= 2^20, skip count <= 2^22, any position inside the current block, block loaded or not' % (4 if thorough else 3)
 
@@ -203,52 +251,79 @@ def report(rep, desc, kind, w, b, fake, b2):
 
 
 def layout_strings(rows_per_block, block_bytes):
-    """Distinct, increasing strings such that a plain VARCHAR block builder with `block_bytes` closes a block after exactly
-    rows_per_block[i] rows: each row of block i takes about (block_bytes - 16) / n_i bytes (4 of them the offset)."""
-    out = []
-    k = 0
+    """Distinct, increasing strings such that the plain VARCHAR block builder (target = block_bytes - 16, cost of a row =
+    its length + 4) closes a block after exactly rows_per_block[i] rows: every row of a block of n rows costs
+    floor(target / n), so n rows fit and the first row of the next block (cost >= 8 > n - 1) does not."""
+    target = block_bytes - 16
+    out, k = [], 0
     for n in rows_per_block:
-        per = max(5, (block_bytes - 16) // n)
-        ln = per - 4
+        ln = target // n - 4
+        assert ln >= 4, (n, block_bytes)
         for _ in range(n):
-            tag = '%04d' % k
-            out.append((tag + 'x' * ln)[:max(ln, 4)])
+            out.append(('%04d' % k) + 'x' * (ln - 4))
             k += 1
     return out
 
 
+_FAMILY = {}
+
+
 def replay(w):
-    """Lay the column out with the witness' rows per block, then delete each contiguous range in turn and read back."""
-    rpb = [max(1, min(n, 40)) for n in w['rows_per_block']]
-    how = {'tried': []}
-    for block_bytes in (128, 160, 256):
-        vals = layout_strings(rpb + [3], block_bytes)        # a last block so that rows survive after every range
-        n = len(vals)
-        stmts = []
-        ranges = [(i, j) for i in range(n) for j in range(i + 1, n + 1) if j - i >= 2]
-        for t, (i, j) in enumerate(ranges):
-            stmts += ['create table t%d(s varchar not null)' % t, 'insert into t%d values %s' % (t, ', '.join("('%s')" % v for v in vals)),
-                      "delete from t%d where s >= '%s' and s < '%s'" % (t, vals[i][:4], ('%04d' % j)), 'select s from t%d' % t]
+    """Cached per run: the family of layouts does not depend on the witness."""
+    key = tuple(max(1, min(n, 7)) for n in w['rows_per_block'])
+    if 'hit' in _FAMILY:
+        return _FAMILY['hit']
+    if key in _FAMILY:
+        return _FAMILY[key]
+    r = _replay(w, family='family-done' not in _FAMILY)
+    if r['reproduced']:
+        _FAMILY['hit'] = r
+    else:
+        _FAMILY['family-done'] = True
+        _FAMILY[key] = r
+    return r
+
+
+def _replay(w, family=True):
+    """End-to-end search guided by the witness: VARCHAR columns are laid out with given rows per block (first the
+    witness' own layout between guard blocks, then every sequence of four blocks of 1 / 3 / 7 rows); for each layout every
+    run of two or more whole blocks is deleted in turn and the table is read back."""
+    import itertools
+    block_bytes = 128
+    cap = lambda n: max(1, min(n, 7))
+    layouts = [[2] + [cap(n) for n in w['rows_per_block']] + [7, 2]]
+    if family:
+        layouts += [[2] + list(seq) + [2] for seq in itertools.product((1, 3, 7), repeat=4)]
+    how = {'layouts_tried': 0, 'tables_run': 0}
+    for chunk in range(0, len(layouts), 20):
+        stmts, cases = [], []
+        for lay in layouts[chunk:chunk + 20]:
+            vals = layout_strings(lay, block_bytes)
+            starts = [sum(lay[:i]) for i in range(len(lay) + 1)]
+            for i in range(1, len(lay) - 1):
+                for j in range(i + 2, len(lay)):
+                    t = len(cases)
+                    lo, hi = starts[i], starts[j]
+                    stmts += ['create table t%d(s varchar not null)' % t, 'insert into t%d values %s' % (t, ', '.join("('%s')" % v for v in vals)),
+                              "delete from t%d where s >= '%04d' and s < '%04d'" % (t, lo, hi), 'select s from t%d' % t]
+                    cases.append((lay, lo, hi, sorted(vals[:lo] + vals[hi:])))
         d = scratch_dir('c06c')
-        out, rc, err = rl('sql', {'engine': 'disk', 'dir': d, 'block': block_bytes, 'rowset': 1 << 20, 'stmts': stmts}, timeout=600)
+        out, rc, err = rl('sql', {'engine': 'disk', 'dir': d, 'block': block_bytes, 'rowset': 1 << 20, 'stmts': stmts}, timeout=900)
         shutil.rmtree(d, ignore_errors=True)
         res = {o['sql']: o for o in out if 'sql' in o}
-        bad = None
-        ran = 0
-        for t, (i, j) in enumerate(ranges):
+        how['layouts_tried'] += len(layouts[chunk:chunk + 20])
+        for t, (lay, lo, hi, exp) in enumerate(cases):
             o = res.get('select s from t%d' % t)
             if o is None:
                 continue
-            ran += 1
-            exp = sorted(vals[:i] + vals[j:])
+            how['tables_run'] += 1
             got = sorted(r[0] for r in o['rows']) if o.get('ok') else None
             if got != exp:
-                bad = {'block_bytes': block_bytes, 'rows': n, 'deleted_range': [i, j], 'expected_rows': len(exp), 'returned_rows': (len(got) if got is not None else o.get('err')),
-                       'panicked': o.get('panicked')}
-                break
-        how['tried'].append({'block_bytes': block_bytes, 'ranges_run': ran, 'failure': bad})
-        if bad:
-            how['first_failure'] = bad
-            return {'reproduced': True, 'how': how}
-    how['note'] = 'no deleted range read back wrong on the witness layout'
+                how['first_failure'] = {'block_bytes': block_bytes, 'rows_per_block': lay, 'deleted_rows': [lo, hi], 'expected_rows': len(exp),
+                                        'returned_rows': (len(got) if got is not None else o.get('err')), 'panicked': o.get('panicked'),
+                                        'stmts': ['create table t(s varchar not null)  -- on disk, target_block_size %d' % block_bytes,
+                                                  'insert into t values <%d strings laid out as %s rows per block>' % (sum(lay), lay),
+                                                  "delete from t where s >= '%04d' and s < '%04d'" % (lo, hi), 'select s from t']}
+                return {'reproduced': True, 'how': how}
+    how['note'] = 'no deleted block range read back wrong on %d layouts (%d tables)' % (how['layouts_tried'], how['tables_run'])
     return {'reproduced': False, 'how': how}
